@@ -16,13 +16,15 @@ import (
 )
 
 type RunReport struct {
-	Repo       string        `json:"repo"`
-	Tags       string        `json:"tags"`
-	Solver     string        `json:"solver"`
-	LoadS      float64       `json:"load_s"`
-	WallS      float64       `json:"wall_s"`
-	Harnesses  []*HarnessRun `json:"harnesses"`
-	OverlayDir string        `json:"overlay_dir"`
+	Repo       string         `json:"repo"`
+	Tags       string         `json:"tags"`
+	Solver     string         `json:"solver"`
+	LoadS      float64        `json:"load_s"`
+	WallS      float64        `json:"wall_s"`
+	Harnesses  []*HarnessRun  `json:"harnesses"`
+	OverlayDir string         `json:"overlay_dir"`
+	Gen        *genReport     `json:"gen,omitempty"`
+	Params     map[string]int `json:"params"`
 }
 
 func main() {
@@ -48,6 +50,10 @@ func main() {
 	flag.IntVar(&cfg.PreemptBound, "preempt", -1, "preemption bound (-1 = unbounded)")
 	flag.IntVar(&cfg.MaxSleeps, "max-sleeps", 6, "bound on time.Sleep calls per thread")
 	flag.IntVar(&cfg.Witnesses, "witnesses", 3, "completed paths per harness exported as native-replay witnesses")
+	flag.BoolVar(&cfg.Gen, "gen", false, "generate per-method harnesses from the method sets, then load again")
+	var params string
+	flag.BoolVar(&cfg.NoCache, "no-cache", false, "disable the model (counterexample) cache")
+	flag.StringVar(&params, "params", "", "harness parameters k=v,k=v (zzverif.Param)")
 	flag.StringVar(&run, "run", ".*", "regexp selecting harness functions (VH_*)")
 	flag.StringVar(&out, "out", "", "write JSON report here")
 	flag.StringVar(&list, "list", "", "only list harnesses matching the regexp")
@@ -61,11 +67,32 @@ func main() {
 		defer pprof.StopCPUProfile()
 	}
 
+	cfg.Params = map[string]int{}
+	for _, kv := range strings.Split(params, ",") {
+		if k, v, ok := strings.Cut(kv, "="); ok {
+			n := 0
+			fmt.Sscanf(v, "%d", &n)
+			cfg.Params[k] = n
+		}
+	}
 	t0 := time.Now()
 	eng := &Engine{cfg: cfg}
 	if err := eng.Load(); err != nil {
 		fmt.Fprintln(os.Stderr, "gosym: load failed:", err)
 		os.Exit(2)
+	}
+	var gen *genReport
+	if cfg.Gen {
+		var err error
+		gen, err = eng.Generate()
+		if err != nil {
+			fmt.Fprintln(os.Stderr, "gosym: generate failed:", err)
+			os.Exit(2)
+		}
+		if err := eng.Load(); err != nil {
+			fmt.Fprintln(os.Stderr, "gosym: load of generated harnesses failed:", err)
+			os.Exit(2)
+		}
 	}
 	loadS := time.Since(t0).Seconds()
 	re := regexp.MustCompile(run)
@@ -86,7 +113,7 @@ func main() {
 		fmt.Fprintln(os.Stderr, "gosym: overlay:", err)
 		os.Exit(2)
 	}
-	rep := &RunReport{Repo: cfg.RepoDir, Tags: cfg.Tags, Solver: cfg.Solver, LoadS: loadS, OverlayDir: ovDir}
+	rep := &RunReport{Repo: cfg.RepoDir, Tags: cfg.Tags, Solver: cfg.Solver, LoadS: loadS, OverlayDir: ovDir, Gen: gen, Params: cfg.Params}
 	results := make([]*HarnessRun, len(hs))
 	var wg sync.WaitGroup
 	sem := make(chan struct{}, jobs)
